@@ -139,75 +139,313 @@ def run_history(ctx, cls, flavour, base_seed, ops):
     return
 
 
-def model_history(ctx, base_seed, flavour, ops):
-    """B: the Lean state machine (Model/Mutable.lean) on the same ConvexPolyhedron history."""
+MODELLED_CALLS = {"diagonalize_inertia", "to_hoomd"}
+
+
+class _Recorder:
+    """Temporarily wrap a property getter of a class (found along the MRO) to record what it returns."""
+
+    def __init__(self, cls, name):
+        self.owner = next(k for k in cls.__mro__ if name in k.__dict__)
+        self.name = name
+        self.orig = self.owner.__dict__[name]
+        self.values = []
+
+    def __enter__(self):
+        orig, values = self.orig, self.values
+
+        def fget(obj):
+            v = orig.fget(obj)
+            values.append(np.array(v, dtype=float, copy=True))
+            return v
+        setattr(self.owner, self.name, property(fget, orig.fset, orig.fdel, orig.__doc__))
+        return self
+
+    def __exit__(self, *exc):
+        setattr(self.owner, self.name, self.orig)
+        return False
+
+
+class _EighRecorder:
+    """Record the eigenvector matrix np.linalg.eigh returns (before the caller's in-place sign fix)."""
+
+    def __enter__(self):
+        self.P = None
+        self.orig = np.linalg.eigh
+
+        def eigh(a, *args, **kw):
+            w, v = self.orig(a, *args, **kw)
+            self.P = np.array(v, dtype=float, copy=True)
+            return w, v
+        np.linalg.eigh = eigh
+        return self
+
+    def __exit__(self, *exc):
+        np.linalg.eigh = self.orig
+        return False
+
+
+def _row_parity(old, new):
+    """+1: `new` is a cyclic rotation of the triple `old`; -1: a reflection; 0: neither."""
+    a, b, c = (int(x) for x in old)
+    new = tuple(int(x) for x in new)
+    if new in ((a, b, c), (b, c, a), (c, a, b)):
+        return 1
+    if new in ((c, b, a), (b, a, c), (a, c, b)):
+        return -1
+    return 0
+
+
+def _cp_tokens(o):
+    from common import L
+    heads = [[int(f[0]), int(f[1]), int(f[2])] for f in o.faces]
+    simp = [[int(a), int(b), int(c)] for a, b, c in np.asarray(o.simplices)]
+    return [L(list(np.array(o.vertices))), L(simp), L(heads), L(list(o._equations[:, :3])),
+            L([float(x) for x in o._equations[:, 3]]), L(list(o._simplex_equations[:, :3])),
+            L([float(x) for x in o._simplex_equations[:, 3]]), float(o._volume), float(o._area),
+            np.array(o._centroid)]
+
+
+def _cp_live(o):
+    return {"vertices": np.array(o.vertices), "eqN": o._equations[:, :3], "eqD": o._equations[:, 3],
+            "seqN": o._simplex_equations[:, :3], "seqD": o._simplex_equations[:, 3],
+            "volume": o._volume, "area": o._area, "centroid": np.array(o._centroid)}
+
+
+CP_DEG = {"vertices": 1, "eqN": 0, "eqD": 1, "seqN": 0, "seqD": 1, "volume": 3, "area": 2, "centroid": 1}
+
+
+class _Take:
+    def __init__(self, rest):
+        self.rest, self.pos = rest, 0
+
+    def __call__(self, k):
+        out = np.array(self.rest[self.pos:self.pos + k], dtype=float)
+        self.pos += k
+        return out
+
+    def cp(self, nv, nf, ns):
+        return {"vertices": self(3 * nv).reshape(nv, 3), "eqN": self(3 * nf).reshape(nf, 3), "eqD": self(nf),
+                "seqN": self(3 * ns).reshape(ns, 3), "seqD": self(ns), "volume": self(1)[0], "area": self(1)[0],
+                "centroid": self(3)}
+
+
+def _compare(ctx, opname, case, got, live, deg, size):
+    for k in got:
+        if not sc.num_close(got[k], live[k], size ** deg[k] if deg[k] else 1.0, 1e-9):
+            ctx.disagree(opname + ":" + k, case, [np.asarray(got[k]).tolist(), np.asarray(live[k]).tolist()])
+            return False
+    return True
+
+
+def _size_code(cls, name):
+    """(opcode, extra) of a size setter in the class's state machine; None = not a modelled setter."""
+    if cls in ("ConvexPolyhedron", "Polyhedron"):
+        return {"volume": (0, "plain"), "surface_area": (1, "plain")}.get(name, (2, "cur"))
+    if cls in ("Polygon", "ConvexPolygon"):
+        return {"area": (0, "plain"), "perimeter": (1, "plain")}.get(name, (2, "cur"))
+    if cls == "ConvexSpheropolygon":
+        return {"area": (1, "plain"), "perimeter": (2, "plain")}.get(name)
+    if cls == "ConvexSpheropolyhedron":
+        return {"volume": (1, 3), "surface_area": (1, 2), "mean_curvature": (1, 1)}.get(name)
+    return None
+
+
+def model_history(ctx, base_seed, flavour, ops, cls="ConvexPolyhedron"):
+    """B: the Lean state machines (Model/Mutable.lean, Model/Mutable2.lean) on the same history: the private
+    attributes of the live object after the history must equal the state the driver computes from the initial
+    private attributes, the same targets and the recorded external inputs (eigh matrix, re-oriented simplices,
+    values of getters that are not closed forms of the model)."""
     from common import L
     rng = np.random.default_rng(base_seed)
-    obj = sc.base_shape(rng, "ConvexPolyhedron", flavour)
-    case = {"cls": "ConvexPolyhedron", "flavour": flavour, "base_seed": int(base_seed), "ops": ops, "model": True}
-
-    def state_tokens(o):
-        heads = [[int(f[0]), int(f[1]), int(f[2])] for f in o.faces]
-        simp = [[int(a), int(b), int(c)] for a, b, c in np.asarray(o.simplices)]
-        return [L(list(np.array(o.vertices))), L(simp), L(heads), L(list(o._equations[:, :3])),
-                L([float(x) for x in o._equations[:, 3]]), L(list(o._simplex_equations[:, :3])),
-                L([float(x) for x in o._simplex_equations[:, 3]]), float(o._volume), float(o._area),
-                np.array(o._centroid)]
-
-    toks = state_tokens(obj)
-    coded = []
-    expect = []
+    obj = sc.base_shape(rng, cls, flavour)
+    case = {"cls": cls, "flavour": flavour, "base_seed": int(base_seed), "ops": ops, "model": True}
+    core = obj.polyhedron if cls == "ConvexSpheropolyhedron" else obj   # where the CP caches live
+    r0 = float(obj.radius) if cls == "ConvexSpheropolyhedron" else None
+    if cls in ("ConvexPolyhedron", "ConvexSpheropolyhedron"):
+        toks = _cp_tokens(core)
+    elif cls == "Polyhedron":
+        toks = [L(list(np.array(obj.vertices))), L([L([int(i) for i in f]) for f in obj.faces]),
+                L(list(obj._equations[:, :3])), L([float(x) for x in obj._equations[:, 3]])]
+    else:
+        poly = obj.polygon if cls == "ConvexSpheropolygon" else obj
+        toks = [L(list(np.array(poly._vertices))), np.array(poly._normal, dtype=float)]
+        if cls == "ConvexSpheropolygon":
+            toks.append(float(obj.radius))
+    coded, expect = [], []
+    hoomd = None
     for op in ops:
         kind, name, arg = op
+        code = None
         if kind == "setvec":
-            coded.append([3, np.array(arg, dtype=float)])
+            if cls == "ConvexPolyhedron":
+                code = [3, np.array(arg, dtype=float)]
+            elif cls in ("Polyhedron", "Polygon", "ConvexPolygon"):
+                try:
+                    cur = np.array(obj.centroid, dtype=float)
+                except Exception:
+                    return
+                code = [3, cur, np.array(arg, dtype=float)]
+        elif kind == "setabs":
+            code = [0, float(arg)]
         elif kind in ("setfac", "setbad"):
+            sc_ = _size_code(cls, name)
             try:
                 cur = float(getattr(obj, name))
             except Exception:
-                return  # getter raises: not a modelled step
-            tgt = cur * arg if kind == "setfac" else arg
-            if name == "volume":
-                coded.append([0, float(tgt)])
-            elif name == "surface_area":
-                coded.append([1, float(tgt)])
-            else:
-                coded.append([2, cur, float(tgt)])
-        else:
+                cur = None
+            if sc_ is not None and cur is not None:
+                tgt = cur * arg if kind == "setfac" else arg
+                if sc_[1] == "plain":
+                    code = [sc_[0], float(tgt)]
+                elif sc_[1] == "cur":
+                    code = [sc_[0], cur, float(tgt)]
+                else:
+                    code = [sc_[0], int(sc_[1]), cur, float(tgt)]
+        elif kind == "call" and name not in MODELLED_CALLS:
             return
+        # ---- run the step on the live object, recording the external inputs
         try:
-            apply_op(obj, op)
-            expect.append(0)
-        except ValueError:
-            expect.append(1)
+            if kind == "call" and name == "diagonalize_inertia":
+                if cls not in ("ConvexPolyhedron", "Polyhedron"):
+                    return
+                old_simp = np.array(obj.simplices) if cls == "ConvexPolyhedron" else None
+                with _EighRecorder() as rec:
+                    obj.diagonalize_inertia()
+                P = rec.P
+                if P is None:
+                    return
+                if not np.allclose(P.T @ P, np.eye(3), atol=1e-9):
+                    ctx.disagree("contract:IsOrth", case, P.tolist())
+                    return
+                code = [4, P]
+                if cls == "ConvexPolyhedron":
+                    new_simp = np.array(obj.simplices)
+                    par = {_row_parity(a, b) for a, b in zip(old_simp, new_simp)}
+                    sv = float(np.sum(np.linalg.det(np.array(obj.vertices)[new_simp])) / 6)
+                    if len(old_simp) != len(new_simp) or par not in ({1}, {-1}) or not sv >= 0:
+                        ctx.disagree("contract:SortContract", case, [sorted(par), sv])
+                        return
+                    code.append(L([[int(x) for x in r] for r in new_simp]))
+                ctx.count("model-op:diagonalize_inertia")
+            elif kind == "call" and name == "to_hoomd":
+                if cls in ("ConvexPolyhedron", "ConvexSpheropolyhedron"):
+                    hoomd = obj.to_hoomd()
+                    code = [5] if cls == "ConvexPolyhedron" else [2]
+                else:
+                    poly = obj.polygon if cls == "ConvexSpheropolygon" else obj
+                    with _Recorder(type(poly), "centroid") as rec:
+                        hoomd = obj.to_hoomd()
+                    if len(rec.values) < 2:
+                        ctx.disagree("to_hoomd:centroid-reads", case, len(rec.values))
+                        return
+                    c_first, c_last = rec.values[0], rec.values[-1]
+                    if cls == "ConvexSpheropolygon":
+                        code = [3, c_first, c_last]
+                    else:
+                        if not np.array_equal(rec.values[0], rec.values[1]):
+                            ctx.disagree("to_hoomd:centroid-reads", case, [v.tolist() for v in rec.values[:2]])
+                            return
+                        code = [5 if cls == "Polyhedron" else 4, c_first, c_last]
+                ctx.count("model-op:to_hoomd")
+            else:
+                apply_op(obj, op)
+            raised = None
+        except ValueError as e:
+            raised = e
+        except Exception:
+            if code is None:
+                continue        # e.g. assigning `center` of a spheropoly*: no such step in the model, nothing changes
+            return
+        if code is None:
+            if raised is not None:
+                continue        # a setter whose getter raises (no such ball for this shape): not a modelled step
+            return
+        coded.append(code)
+        expect.append(0 if raised is None else 1)
+    if not coded:
+        return
+    opname = {"ConvexPolyhedron": "cpstate.run", "Polyhedron": "phstate.run", "Polygon": "pgstate.run",
+              "ConvexPolygon": "pgstate.run", "ConvexSpheropolygon": "spgstate.run",
+              "ConvexSpheropolyhedron": "sphstate.run"}[cls]
+    if cls == "ConvexSpheropolyhedron":
+        try:
+            hcur = float(obj.polyhedron.mean_curvature)
         except Exception:
             return
-    r = ctx.driver.F("cpstate.run", *toks, len(coded), *[x for c in coded for x in c])
+        toks = toks + [r0, hcur]
+    r = ctx.driver.F(opname, *toks, len(coded), *[x for c in coded for x in c])
     n = len(coded)
-    log, rest = r[:n], r[n:]
+    log, take = r[:n], _Take(r[n:])
     ctx.count("model-histories")
+    ctx.count("model-cls:" + cls)
     if list(log) != expect:
-        ctx.disagree("cpstate.run:raise-pattern", case, [list(log), expect])
+        ctx.disagree(opname + ":raise-pattern", case, [list(log), expect])
         return
-    nv, nf, ns = len(obj.vertices), len(obj.faces), len(obj.simplices)
-    pos = 0
-    def take(k):
-        nonlocal pos
-        out = np.array(rest[pos:pos + k], dtype=float)
-        pos += k
-        return out
     size = sc.size_of(obj)
-    got = {"vertices": take(3 * nv).reshape(nv, 3), "eqN": take(3 * nf).reshape(nf, 3), "eqD": take(nf),
-           "seqN": take(3 * ns).reshape(ns, 3), "seqD": take(ns), "volume": take(1)[0], "area": take(1)[0],
-           "centroid": take(3)}
-    live = {"vertices": np.array(obj.vertices), "eqN": obj._equations[:, :3], "eqD": obj._equations[:, 3],
-            "seqN": obj._simplex_equations[:, :3], "seqD": obj._simplex_equations[:, 3],
-            "volume": obj._volume, "area": obj._area, "centroid": np.array(obj._centroid)}
-    deg = {"vertices": 1, "eqN": 0, "eqD": 1, "seqN": 0, "seqD": 1, "volume": 3, "area": 2, "centroid": 1}
-    for k in got:
-        if not sc.num_close(got[k], live[k], size ** deg[k] if deg[k] else 1.0, 1e-9):
-            ctx.disagree("cpstate.run:" + k, case, [np.asarray(got[k]).tolist(), np.asarray(live[k]).tolist()])
+    nv = len(obj.vertices)
+    if cls in ("ConvexPolyhedron", "ConvexSpheropolyhedron"):
+        nf, ns = len(core.faces), len(core.simplices)
+        got = take.cp(nv, nf, ns)
+        if not _compare(ctx, opname, case, got, _cp_live(core), CP_DEG, size):
             return
+        if cls == "ConvexSpheropolyhedron":
+            got2 = {"radius": take(1)[0], "volume": take(1)[0], "surface_area": take(1)[0],
+                    "mean_curvature": take(1)[0]}
+            live2 = {"radius": obj.radius, "volume": obj.volume, "surface_area": obj.surface_area,
+                     "mean_curvature": obj.mean_curvature}
+            size2 = size + float(obj.radius)
+            if not _compare(ctx, opname, case, got2, live2,
+                            {"radius": 1, "volume": 3, "surface_area": 2, "mean_curvature": 1}, size2):
+                return
+        hv = take(3 * nv).reshape(nv, 3)
+        if hoomd is not None:
+            hgot = {"hoomd.vertices": hv}
+            hlive = {"hoomd.vertices": np.asarray(hoomd["vertices"], dtype=float)}
+            hdeg = {"hoomd.vertices": 1}
+            if cls == "ConvexPolyhedron":
+                hgot.update({"hoomd.centroid": take(3), "hoomd.volume": take(1)[0]})
+                hlive.update({"hoomd.centroid": np.asarray(hoomd["centroid"], dtype=float),
+                              "hoomd.volume": float(hoomd["volume"])})
+                hdeg.update({"hoomd.centroid": 1, "hoomd.volume": 3})
+            _compare(ctx, opname, case, hgot, hlive, hdeg, size)
+        return
+    if cls == "Polyhedron":
+        nf = len(obj.faces)
+        got = {"vertices": take(3 * nv).reshape(nv, 3), "eqN": take(3 * nf).reshape(nf, 3), "eqD": take(nf),
+               "volume": take(1)[0], "surface_area": take(1)[0]}
+        live = {"vertices": np.array(obj.vertices), "eqN": obj._equations[:, :3], "eqD": obj._equations[:, 3],
+                "volume": obj.volume, "surface_area": obj.surface_area}
+        deg = {"vertices": 1, "eqN": 0, "eqD": 1, "volume": 3, "surface_area": 2}
+        if not _compare(ctx, opname, case, got, live, deg, size):
+            return
+        hv = take(3 * nv).reshape(nv, 3)
+        if hoomd is not None:
+            _compare(ctx, opname, case, {"hoomd.vertices": hv},
+                     {"hoomd.vertices": np.asarray(hoomd["vertices"], dtype=float)}, {"hoomd.vertices": 1}, size)
+        return
+    poly = obj.polygon if cls == "ConvexSpheropolygon" else obj
+    got = {"vertices": take(3 * nv).reshape(nv, 3), "normal": take(3)}
+    live = {"vertices": np.array(poly._vertices), "normal": np.array(poly._normal, dtype=float)}
+    deg = {"vertices": 1, "normal": 0, "radius": 1, "area": 2, "perimeter": 1}
+    if cls == "ConvexSpheropolygon":
+        got["radius"] = take(1)[0]
+        live["radius"] = obj.radius
+        size = size + float(obj.radius)
+    got.update({"area": take(1)[0], "perimeter": take(1)[0]})
+    live.update({"area": obj.area, "perimeter": obj.perimeter})
+    if not _compare(ctx, opname, case, got, live, deg, size):
+        return
+    hv = take(3 * nv).reshape(nv, 3)
+    if hoomd is not None:
+        hl = np.asarray(hoomd["vertices"], dtype=float)
+        _compare(ctx, opname, case, {"hoomd.vertices": hv[:, :hl.shape[1]]}, {"hoomd.vertices": hl},
+                 {"hoomd.vertices": 1}, size)
+
+
+def modelled(cls, ops):
+    """histories the state machines cover: everything except merge_faces / sort_faces."""
+    return all(o[0] != "call" or o[1] in MODELLED_CALLS for o in ops)
 
 
 def run(ctx):
@@ -237,13 +475,19 @@ def run(ctx):
                 ctx.count("cls:" + cls)
                 ctx.count("len:%d" % min(len(ops), 4))
                 run_history(ctx, cls, flavour, base_seed, ops)
-                if cls == "ConvexPolyhedron" and all(o[0] in ("setvec", "setfac", "setbad") for o in ops):
-                    model_history(ctx, base_seed, flavour, ops)
+                if modelled(cls, ops):
+                    model_history(ctx, base_seed, flavour, ops, cls)
+            if cls.startswith("ConvexSphero"):
+                # the rounding-radius guard (negative / nan refused, zero accepted) and a rescale after it
+                for extra in ([["setabs", "radius", -1.0]], [["setabs", "radius", float("nan")]],
+                              [["setabs", "radius", 0.0], ["setfac", "perimeter" if cls.endswith("gon") else "volume", 2.0]]):
+                    model_history(ctx, base_seed, flavour, extra, cls)
 
 
 def replay(ctx, payload):
     case = payload.get("case", payload)
     ctx.case(case)
-    run_history(ctx, case["cls"], case["flavour"], case["base_seed"], case["ops"])
-    if case["cls"] == "ConvexPolyhedron" and all(o[0] in ("setvec", "setfac", "setbad") for o in case["ops"]):
-        model_history(ctx, case["base_seed"], case["flavour"], case["ops"])
+    if not case.get("model"):
+        run_history(ctx, case["cls"], case["flavour"], case["base_seed"], case["ops"])
+    if modelled(case["cls"], case["ops"]):
+        model_history(ctx, case["base_seed"], case["flavour"], case["ops"], case["cls"])
